@@ -1,6 +1,7 @@
 #!/usr/bin/env python3
 """Development aid: step 3 of the checks (scenarios, monitors, correspondence) for many seeds
-without rebuilding the Lean side.  usage: soak.py <first seed> <last seed> [props...]"""
+without rebuilding the Lean side.  usage: soak.py <first seed> <last seed> [props...]
+(SOAK_THOROUGH=1: the thorough budget)"""
 import os, sys, time
 VERIF = os.path.dirname(os.path.dirname(os.path.abspath(__file__)))
 os.chdir(VERIF)
@@ -26,7 +27,7 @@ for seed in range(a, b + 1):
         t0 = time.time()
         res = Res()
         try:
-            explore.run(pid, registry.PROPS[pid], res, True, False, seed)
+            explore.run(pid, registry.PROPS[pid], res, True, bool(os.environ.get("SOAK_THOROUGH")), seed)
         except Exception as e:
             print("seed %d %s: EXCEPTION %s: %s" % (seed, pid, type(e).__name__, e), flush=True)
             bad += 1
